@@ -51,6 +51,11 @@ impl Rng {
     pub fn byte(&mut self) -> u8 {
         (self.next() & 0xFF) as u8
     }
+    /// between lo and hi random bytes
+    pub fn bytes_range(&mut self, lo: u64, hi: u64) -> Vec<u8> {
+        let n = self.range(lo, hi) as usize;
+        self.bytes(n)
+    }
     pub fn bytes(&mut self, n: usize) -> Vec<u8> {
         (0..n).map(|_| self.byte()).collect()
     }
